@@ -122,6 +122,22 @@ theorem resolve_confined (root p q : Str) (h : resolve root p = .opened q) : ins
   · rw [h1] at h; exact absurd h (by simp)
   · rw [h1] at h; exact absurd h (by simp)
 
+/-- **resolve_exact.** `Resolve` opens `q` exactly when `q` is the cleaned join of root and path and
+    lies inside the root: the test neither lets anything escape nor rejects anything inside. -/
+theorem resolve_exact (root p q : Str) :
+    resolve root p = .opened q ↔ q = cleanStr (joinStr root p) ∧ inside root q := by
+  constructor
+  · intro h
+    refine ⟨?_, resolve_confined root p q h⟩
+    rcases resolve_cases root p with ⟨h1, _⟩ | h1 | h1
+    · rw [h1] at h; injection h with h; exact h.symm
+    · rw [h1] at h; exact absurd h (by simp)
+    · rw [h1] at h; exact absurd h (by simp)
+  · rintro ⟨rfl, hin⟩
+    have := inside_isSubpath root _ hin
+    unfold resolve
+    simp only [this]
+
 /-- non-vacuity: an accepted path (with `..`, `.` and doubled separators inside the root) … -/
 example : resolve (b "top/root") (b "sub/.././/nm") = .opened (b "top/root/nm") := by decide
 /-- … rejected ones: `..` out of the root, the sibling whose name extends the root's, an absolute
